@@ -1012,6 +1012,13 @@ def deep_descs(prop, tier):
             star = [[0, i] for i in range(1, n)]
             for func in ("active_vertices_not_adjacent", "active_vertices_not_adjacent_and_not_segmenting"):
                 out.append(dict(func=func, n=n, edges=star, form="vars", deep="sparse"))
+        for n in (9, 13):
+            # wheel and fan: hub 0 joined to a rim cycle / path 1..n-1; with the hub active the inactive rim is a long cycle or
+            # path although the whole graph has diameter 2 (a rank bound derived from distances in G is too small for it)
+            rim = [[i, i + 1] for i in range(1, n - 1)]
+            spokes = [[0, i] for i in range(1, n)]
+            out.append(dict(func="active_vertices_not_adjacent_and_not_segmenting", n=n, edges=spokes + rim + [[n - 1, 1]], form="vars", deep="sparse"))
+            out.append(dict(func="active_vertices_not_adjacent_and_not_segmenting", n=n, edges=spokes + rim, form="vars", deep="sparse"))
         out.append(dict(func="active_vertices_not_adjacent_and_not_segmenting", grid=[8, 13], as_grid=True, form="vars", deep="sparse"))
         out.append(dict(func="active_vertices_not_adjacent", grid=[8, 13], as_grid=True, form="vars", deep="sparse"))
         # 33 / 65 vertices (one more than a power of two: block-wise summation in an encoder or a back end), both forms
